@@ -65,6 +65,7 @@ EHS = ["selalt", "baro", "roll", "track", "tar", "gs", "tas", "hdg", "ias", "mac
 
 class C10(PropBase):
     id = "C10"
+    corr_fields = ['ais', 'threat', 'selalt', 'baro', 'tasrc', 'roll', 'track', 'tar', 'gs', 'tas', 'hdg', 'ias', 'mach', 'vrate', 'cap0', 'cap1', 'b50age', 'trs', 'vrs', 'hds', 'turn']
     lean_modules = ["SqModel.Props.C10", "SqModel.Props.C10b", "SqModel.Proofs.Dispatch", "SqModel.Proofs.Bridge", "SqModel.Proofs.BridgeRat", "SqModel.Proofs.BridgePlane"]
     extractors = ["dispatch", "trans"]
     rule = ("histories per aircraft (three in eight of them begin with a data reply, so that a Comm-B frame creates the row) of DF11 (CA 0..7), BDS 1,7 reports advertising random subsets of 4,0/5,0/6,0, and data "
